@@ -21,18 +21,26 @@ import (
 
 func TestMain(m *testing.M) { stats.Main(m, "C16") }
 
-// Tolerances (all stated here):
+// Tolerances (all stated here). Smart clipping has no unit of length, so every tolerance is relative to
+// the case: size = larger side of the box, boxArea = w*h, and noise = 64 * 2^-52 * scale is the float64
+// rounding granularity of the coordinates involved (scale = largest absolute coordinate of box and
+// input; a box far from the origin cannot be clipped more finely than that). No absolute constants.
 //
-//	tolV   = 1e-9*(1+scale)   output vertices may lie this far outside the box
-//	eps    = 1e-9*(1+scale)   a ring vertex this close to the box boundary / a box corner this close to a
-//	                          ring edge is "degenerate contact"
-//	dmin   = 1e-6             query points closer than this to the box sides, the input boundary or the
-//	                          output boundary are not asked
-//	tolA   = 1e-9*(1+boxArea+1e-3*scale*(w+h))   area comparison; also the bound under which an output ring
-//	                          counts as a zero-area artefact
-//
-// scale = largest absolute coordinate of box and input (assumed <= 1e4).
-const dmin = 1e-6
+//	tolV = 1e-9*size + noise          output vertices may lie this far outside the box
+//	eps  = 1e-9*size + noise          a ring vertex this close to the box boundary / a box corner this close
+//	                                  to a ring edge is "degenerate contact"
+//	dmin = 1e-6*size + 4*noise        query points closer than this to the box sides, the input boundary or
+//	                                  the output boundary are not asked
+//	tolA = 1e-9*boxArea + 8*noise*(w+h)   area comparison; also the bound under which an output ring counts
+//	                                  as a zero-area artefact
+const ulp = 2.220446049250313e-16
+
+func tolerances(b orb.Bound, scale float64) (eps, dmin, tolA float64) {
+	w, h := b.Max[0]-b.Min[0], b.Max[1]-b.Min[1]
+	size := math.Max(w, h)
+	noise := 64 * ulp * scale
+	return 1e-9*size + noise, 1e-6*size + 4*noise, 1e-9*w*h + 8*noise*(w+h)
+}
 
 // Case is one generated input (also the replay format).
 type Case struct {
@@ -61,6 +69,7 @@ type analysis struct {
 	scale    float64
 	eps      float64
 	tolV     float64
+	dmin     float64
 	tolA     float64
 	boxArea  float64
 	meetsAny bool
@@ -245,9 +254,8 @@ func analyse(c Case) (*analysis, error) {
 			}
 		}
 	}
-	an.eps = 1e-9 * (1 + an.scale)
-	an.tolV = 1e-9 * (1 + an.scale)
-	an.tolA = 1e-9 * (1 + an.boxArea + 1e-3*an.scale*(w+h))
+	an.eps, an.dmin, an.tolA = tolerances(b, an.scale)
+	an.tolV = an.eps
 
 	an.allIn = true
 	an.info = make([][]ringInfo, len(polys))
@@ -560,18 +568,18 @@ func judge(an *analysis, c Case, out orb.MultiPolygon) (zeroArea, asked int, err
 		}
 	}
 	for _, q := range queryPoints(c, b) {
-		if !strictlyInside(b, q) || boxBoundaryDist(b, q) <= dmin {
+		if !strictlyInside(b, q) || boxBoundaryDist(b, q) <= an.dmin {
 			continue
 		}
-		if regionNear(an.polys, q, dmin) || regionNear(outP, q, dmin) {
+		if regionNear(an.polys, q, an.dmin) || regionNear(outP, q, an.dmin) {
 			continue
 		}
-		if an.full != nil && pathNear(an.full, q, dmin) {
+		if an.full != nil && pathNear(an.full, q, an.dmin) {
 			continue
 		}
 		var want bool
 		if c.Kind == "open" {
-			w, usable := chordMember(b, an.polys[0][0], an.o, an.chord, q, dmin)
+			w, usable := chordMember(b, an.polys[0][0], an.o, an.chord, q, an.dmin)
 			if !usable {
 				continue
 			}
@@ -586,7 +594,7 @@ func judge(an *analysis, c Case, out orb.MultiPolygon) (zeroArea, asked int, err
 		if got := inRegion(outP, q); got != want {
 			return zeroArea, asked, fmt.Errorf("region differs at %v: in output %v, in input region %v; output %v", q, got, want, out)
 		}
-		if c.Kind != "open" && !regionNear(plain, q, dmin) {
+		if c.Kind != "open" && !regionNear(plain, q, an.dmin) {
 			if pg := inRegion(plain, q); pg != want {
 				return zeroArea, asked, fmt.Errorf("plain clip differs at %v: in clip output %v, in input region %v", q, pg, want)
 			}
